@@ -169,6 +169,9 @@ struct Emitter {
   std::string gname(const GlobalValue* G) {
     std::string n = sanitize(G->getName());
     if (n == "main") n = "__orig_main";
+    /* a cut (--stub) function whose replacement the model provides under the name vxstub_<name>: the model's version is
+       only linked to when the function is cut, so an instance that keeps the real function has no clash */
+    if (stubbedFns.count(G->getName().str()) && modelFns.count("vxstub_" + G->getName().str())) n = "vxstub_" + n;
     return n;
   }
 
@@ -193,7 +196,7 @@ struct Emitter {
     static const std::set<std::string> libc = {"memcmp","strlen","strcmp","strncmp","memchr","strchr","strrchr","strstr","abs","labs","malloc","free","calloc","realloc","fmod","pow","floor","ceil","sqrt","fabs","exit","abort","strtoll","strtoull","strtol","strtoul","strtod"};
     if (libc.count(F->getName().str())) return;
     extProtos << normTy(FT->getReturnType()) << " " << n << "(" << args << ");\n";
-    if (!modelFns.count(F->getName().str())) {
+    if (!modelFns.count(F->getName().str()) && !modelFns.count("vxstub_" + F->getName().str())) {
       // unmodelled: loud stub
       std::string params;
       for (unsigned i = 0; i < FT->getNumParams(); ++i) { if (i) params += ", "; params += normTy(FT->getParamType(i)) + " p" + std::to_string(i); }
